@@ -9,6 +9,8 @@ import WM.Lemmas.LevSucc
 import WM.Lemmas.ListCorrector
 import WM.Lemmas.FuzzyIndex
 import WM.Lemmas.LevUtf8
+import WM.Lemmas.FuzzyMerge
+import WM.Lemmas.FuzzyMulti
 /-!
 C19 - fuzzy matching and spelling suggestions are exact with respect to edit distance.
 
@@ -280,6 +282,85 @@ example : termsWithinSegBytes [[97, 0xD7FF], [97, 0xE000, 0xE9], [97, 0x10000], 
     (by rw [sortedBytes_iff]; simp [SortedLex]; decide)]
   simp [within, sharePrefix, lev, ed, neq]
 
+/-! ### `reading.py`: the multi-segment reader's merged term list, `expand_prefix` -/
+
+/-- **`MultiReader._merge_terms`** (behind `MultiReader.terms_from/lexicon/expand_prefix`): over
+    the strictly sorted term lists of the segments the heap merge ends (the model's fuel is never
+    used up), raises nothing and yields the strictly sorted union - every term of every segment,
+    once. -/
+theorem merge_terms (segs : List (List (List Nat))) (hs : ∀ lex, lex ∈ segs → SortedLex lex) :
+    ∃ m, mergeTerms segs = .ok m ∧ SortedLex m ∧ ∀ t, t ∈ m ↔ ∃ lex, lex ∈ segs ∧ t ∈ lex :=
+  mergeTerms_spec segs hs
+
+/-- Three segments with overlapping terms (and an empty one): each term comes out once, in order. -/
+example : mergeTerms [[[97], [98, 97]], [], [[97], [97, 98]], [[98, 97], [99]]] =
+    .ok [[97], [97, 98], [98, 97], [99]] := by rfl
+
+/-- **`MultiReader.expand_prefix`**: merging the segments' `terms_from(prefix)` and stopping at the
+    first term that does not start with the prefix yields exactly the terms of the merged list that
+    start with it (they are contiguous: `WM.Lev.prefix_convex`). -/
+theorem expand_prefix_multi (segs : List (List (List Nat))) (pre : List Nat)
+    (hs : ∀ lex, lex ∈ segs → SortedLex lex) :
+    ∃ m, mergeTerms segs = .ok m ∧
+      expandPrefixMulti segs pre = .ok (m.filter fun t => pre.isPrefixOf t) := by
+  obtain ⟨m, hm, _, _⟩ := mergeTerms_spec segs hs
+  exact ⟨m, hm, expandPrefixMulti_spec segs pre hs m hm⟩
+
+/-- The early exit really cuts: `c` follows the `b…` terms and is never looked at. -/
+example : expandPrefixMulti [[[97], [98, 97]], [[98], [99]]] [98] = .ok [[98], [98, 97]] := by rfl
+
+/-- **Multi-segment path from the segments** (`MultiReader.terms_within`: merge of the segments'
+    `terms_from`, `expand_prefix`, distance filter): the result is `within osa` of the merged term
+    list, which is the strictly sorted union of the segment term lists.  Composes `merge_terms`,
+    `expand_prefix_multi` and `terms_within_multi`. -/
+theorem terms_within_multi_index (segs : List (List (List Nat))) (w : List Nat) (d p : Nat)
+    (hs : ∀ lex, lex ∈ segs → SortedLex lex) :
+    ∃ m, mergeTerms segs = .ok m ∧ SortedLex m ∧ (∀ t, t ∈ m ↔ ∃ lex, lex ∈ segs ∧ t ∈ lex) ∧
+      termsWithinMulti segs w d p = .ok (within osa m w d p) ∧
+      ∀ t, t ∈ within osa m w d p ↔
+        (∃ lex, lex ∈ segs ∧ t ∈ lex) ∧ sharePrefix p t w = true ∧ osa t w ≤ d := by
+  obtain ⟨m, hm, hsm, hmem⟩ := mergeTerms_spec segs hs
+  refine ⟨m, hm, hsm, hmem, ?_, ?_⟩
+  · unfold termsWithinMulti
+    rw [expandPrefixMulti_spec segs (w.take p) hs m hm]
+    exact terms_within_multi m w d p
+  · intro t
+    unfold within
+    rw [List.mem_filter, hmem, Bool.and_eq_true, decide_eq_true_eq]
+
+/-- Two segments, the transposition neighbour `ba` lives in the second one: the multi-segment path
+    returns it (documented distance 1), and `c` of the first segment is cut by the bound. -/
+example : termsWithinMulti [[[97, 98], [99]], [[98, 97]]] [97, 98] 1 0 = .ok [[97, 98], [98, 97]] := by
+  obtain ⟨m, hm, _, _, h, _⟩ := terms_within_multi_index [[[97, 98], [99]], [[98, 97]]] [97, 98] 1 0
+    (by intro lex hl; simp only [List.mem_cons, List.not_mem_nil, or_false] at hl
+        rcases hl with rfl | rfl <;> simp [SortedLex] <;> decide)
+  have hm' : mergeTerms [[[97, 98], [99]], [[98, 97]]] = .ok [[97, 98], [98, 97], [99]] := by rfl
+  rw [hm'] at hm
+  cases hm
+  rw [h]
+  simp [within, sharePrefix, osa, ed, neq]
+
+/-- **The same for every segment layout** (multi-segment path): two layouts of the same set of
+    terms give the same `terms_within` result - as lists, in the same order. -/
+theorem terms_within_multi_layout (segs segs' : List (List (List Nat))) (w : List Nat) (d p : Nat)
+    (hs : ∀ lex, lex ∈ segs → SortedLex lex) (hs' : ∀ lex, lex ∈ segs' → SortedLex lex)
+    (hsame : ∀ t, (∃ lex, lex ∈ segs ∧ t ∈ lex) ↔ (∃ lex, lex ∈ segs' ∧ t ∈ lex)) :
+    termsWithinMulti segs w d p = termsWithinMulti segs' w d p := by
+  obtain ⟨m, _, hsm, hmem, h, _⟩ := terms_within_multi_index segs w d p hs
+  obtain ⟨m', _, hsm', hmem', h', _⟩ := terms_within_multi_index segs' w d p hs'
+  have : m = m' := sorted_ext m m' hsm hsm' (fun t => by rw [hmem, hmem', hsame])
+  rw [h, h', this]
+
+/-- One segment `{a, ab, b}` against the three segments `{ab}`, `{a, b}`, `{b}`. -/
+example : termsWithinMulti [[[97], [97, 98], [98]]] [97] 1 0 =
+    termsWithinMulti [[[97, 98]], [[97], [98]], [[98]]] [97] 1 0 := by
+  apply terms_within_multi_layout
+  · intro lex hl; simp only [List.mem_cons, List.not_mem_nil, or_false] at hl
+    subst hl; simp [SortedLex]; decide
+  · intro lex hl; simp only [List.mem_cons, List.not_mem_nil, or_false] at hl
+    rcases hl with rfl | rfl | rfl <;> simp [SortedLex] <;> decide
+  · intro t; simp; constructor <;> (rintro (h | h | h) <;> simp [h])
+
 /-- Full statement of "the same for one segment or many". -/
 def multi_eq_single_full : Prop :=
   ∀ (lex : List (List Nat)) (w : List Nat) (d p : Nat), Valid w → (∀ t, t ∈ lex → Valid t) → SortedLex lex →
@@ -313,6 +394,43 @@ example : termsWithinSeg [[97], [97, 98, 99], [98, 98, 98]] [97, 98] 1 1 =
     simp only [List.mem_cons, List.not_mem_nil, or_false] at ht
     rcases ht with rfl | rfl | rfl <;> simp [osa, lev, ed, neq]
   · rw [terms_within_multi]; simp [within, sharePrefix, osa, ed, neq]
+
+/-- **One optimized segment vs. the same terms in any segment layout** (`_partial`, the property's
+    "the same for one segment or many" over real layouts): the automaton path on the single segment
+    that holds the merged term list agrees with the multi-segment path over the layout, when no
+    term is closer to the word by transpositions than without them (the hypothesis that excludes the
+    recorded defect; without it `single_segment_misses_transposition`).  Composes
+    `terms_within_multi_index`, `multi_eq_single_partial` and `terms_within_multi`. -/
+theorem layout_eq_optimized_partial (segs : List (List (List Nat))) (w : List Nat) (d p : Nat) (hw : Valid w)
+    (hv : ∀ lex, lex ∈ segs → ∀ t, t ∈ lex → Valid t) (hs : ∀ lex, lex ∈ segs → SortedLex lex)
+    (hsame : ∀ lex, lex ∈ segs → ∀ t, t ∈ lex → sharePrefix p t w = true → (osa t w ≤ d ↔ lev t w ≤ d)) :
+    ∃ m, mergeTerms segs = .ok m ∧ termsWithinSeg m w d p = termsWithinMulti segs w d p := by
+  obtain ⟨m, hm, hsm, hmem, htw, _⟩ := terms_within_multi_index segs w d p hs
+  refine ⟨m, hm, ?_⟩
+  rw [htw, ← terms_within_multi m w d p]
+  apply multi_eq_single_partial m w d p hw _ hsm
+  · intro t ht hsp
+    obtain ⟨lex, hl, htl⟩ := (hmem t).mp ht
+    exact hsame lex hl t htl hsp
+  · intro t ht
+    obtain ⟨lex, hl, htl⟩ := (hmem t).mp ht
+    exact hv lex hl t htl
+
+/-- The hypotheses are satisfiable on a layout where the bound really cuts: `{a, bbb}`, `{abc, bbb}`. -/
+example : ∃ m, mergeTerms [[[97], [98, 98, 98]], [[97, 98, 99], [98, 98, 98]]] = .ok m ∧
+    termsWithinSeg m [97, 98] 1 1 = termsWithinMulti [[[97], [98, 98, 98]], [[97, 98, 99], [98, 98, 98]]] [97, 98] 1 1 := by
+  apply layout_eq_optimized_partial _ _ _ _ (by simp [Valid, Scalar, maxCodePoint])
+  · intro lex hl t ht
+    simp only [List.mem_cons, List.not_mem_nil, or_false] at hl
+    rcases hl with rfl | rfl <;> simp only [List.mem_cons, List.not_mem_nil, or_false] at ht <;>
+      rcases ht with rfl | rfl <;> simp [Valid, Scalar, maxCodePoint]
+  · intro lex hl
+    simp only [List.mem_cons, List.not_mem_nil, or_false] at hl
+    rcases hl with rfl | rfl <;> simp [SortedLex] <;> decide
+  · intro lex hl t ht _
+    simp only [List.mem_cons, List.not_mem_nil, or_false] at hl
+    rcases hl with rfl | rfl <;> simp only [List.mem_cons, List.not_mem_nil, or_false] at ht <;>
+      rcases ht with rfl | rfl <;> simp [osa, lev, ed, neq]
 
 /-- The single-segment path never returns a term outside the documented ball (it can only miss
     terms): `within lev ⊆ within osa`. -/
@@ -431,6 +549,70 @@ example : fuzzyDocsIndex [97, 98] 1 0
     · refine ⟨by simp [Valid, Scalar, maxCodePoint], by simp [SortedLex], ?_⟩
       intro t; simp
 
+/-- **`Query.docs` of a fuzzy term query on a multi-segment index** (the query evaluated against
+    the top-level searcher: one expansion through the `MultiReader`): the documents, in global
+    numbering, that contain a term sharing the prefix and within the *documented* distance `osa` -
+    exactly what the property demands.  Composes `terms_within_multi_index` with the union matcher. -/
+theorem fuzzy_query_docs_top (w : List Nat) (d p : Nat)
+    (segs : List (List (List Nat) × List (List (List Nat)))) (h2 : 2 ≤ segs.length)
+    (hok : ∀ s, s ∈ segs → SegOK s) :
+    fuzzyDocsTop w d p segs =
+      .ok (((segs.flatMap (·.2)).zipIdx.filter fun x => x.1.any fun t =>
+        (sharePrefix p t w && decide (osa t w ≤ d))).map (·.2)) := by
+  have hdef : fuzzyDocsTop w d p segs =
+      (termsWithinMulti (segs.map (·.1)) w d p).map (fuzzyDocsOf (segs.flatMap (·.2))) := by
+    unfold fuzzyDocsTop
+    split
+    · simp at h2
+    · rfl
+  obtain ⟨m, _, _, hmem, htw, _⟩ := terms_within_multi_index (segs.map (·.1)) w d p (by
+    intro lex hl
+    obtain ⟨s, hs, rfl⟩ := List.mem_map.mp hl
+    exact (hok s hs).2.1)
+  rw [hdef, htw]
+  simp only [Except.map, fuzzyDocsOf]
+  congr 2
+  apply List.filter_congr
+  intro x hx
+  have hdoc : x.1 ∈ segs.flatMap (·.2) := by
+    obtain ⟨doc, i⟩ := x
+    exact (List.mem_zipIdx_iff_getElem?.mp hx |> List.mem_of_getElem?)
+  obtain ⟨s, hs, hds⟩ := List.mem_flatMap.mp hdoc
+  rw [Bool.eq_iff_iff, List.any_eq_true, List.any_eq_true]
+  constructor
+  · rintro ⟨t, ht, hc⟩
+    refine ⟨t, ht, ?_⟩
+    simp only [List.contains_iff_mem, List.mem_filter, within] at hc
+    simpa using hc.2
+  · rintro ⟨t, ht, hc⟩
+    refine ⟨t, ht, ?_⟩
+    simp only [List.contains_iff_mem, List.mem_filter, within]
+    refine ⟨(hmem t).mpr ⟨s.1, List.mem_map.mpr ⟨s, hs, rfl⟩, ((hok s hs).2.2 t).mpr ⟨x.1, hds, ht⟩⟩, ?_⟩
+    simpa using hc
+
+/-- **The access paths disagree** on a multi-segment index: for the documents `[ba]`, `[b]` (first
+    segment) and `[ab]` (second), `FuzzyTerm("ab", maxdist=1).docs(searcher)` is `[0, 1, 2]` (the
+    documented ball: `ba` is one transposition away) while `searcher.search(...)` returns the
+    documents `[1, 2]` (`fuzzy_query_index`: every segment is expanded with the plain Levenshtein
+    automaton).  Same root cause as `single_segment_misses_transposition`. -/
+theorem fuzzy_access_paths_disagree :
+    fuzzyDocsTop [97, 98] 1 0 [([[98], [98, 97]], [[[98, 97]], [[98]]]), ([[97, 98]], [[[97, 98]]])] = .ok [0, 1, 2] ∧
+    fuzzyDocsIndex [97, 98] 1 0 [([[98], [98, 97]], [[[98, 97]], [[98]]]), ([[97, 98]], [[[97, 98]]])] 0 = .ok [1, 2] := by
+  have hok : ∀ s, s ∈ [(([[98], [98, 97]] : List (List Nat)), ([[[98, 97]], [[98]]] : List (List (List Nat)))),
+      ([[97, 98]], [[[97, 98]]])] → SegOK s := by
+    intro s hs
+    simp only [List.mem_cons, List.not_mem_nil, or_false] at hs
+    rcases hs with rfl | rfl
+    · refine ⟨by simp [Valid, Scalar, maxCodePoint], by simp [SortedLex], ?_⟩
+      intro t; simp; constructor <;> (rintro (h | h) <;> simp [h])
+    · refine ⟨by simp [Valid, Scalar, maxCodePoint], by simp [SortedLex], ?_⟩
+      intro t; simp
+  constructor
+  · rw [fuzzy_query_docs_top _ _ _ _ (by simp) hok]
+    simp [sharePrefix, osa, ed, neq, List.zipIdx]
+  · rw [fuzzy_query_index _ _ _ (by simp [Valid, Scalar, maxCodePoint]) _ _ hok]
+    simp [sharePrefix, lev, ed, neq, List.zipIdx]
+
 /-! ### `spelling.py`: suggestions -/
 
 /-- Full statement for suggestions (multi-segment path): existing terms within the documented
@@ -545,6 +727,73 @@ theorem list_corrector_misses_transposition :
     have : t = [98, 97] := by simpa using h1
     subst this
     simp [lev, ed, neq] at h4
+
+/-- **`MultiCorrector`** over any sub-correctors and any merge operator `op` (given the items the
+    sub-correctors' `_suggestions` yield): the call succeeds, no word is suggested twice (a word
+    several correctors propose is merged into one item), exactly `min limit (number of distinct
+    proposed words)` suggestions come back, and each was proposed by one of the sub-correctors. -/
+theorem multi_corrector (op : Rat → Rat → Rat) (itemss : List (List (Rat × List Nat))) (limit : Nat)
+    (hl : 0 < limit) :
+    ∃ r, suggestItems (multiSuggestions op itemss) limit = .ok r ∧ r.Nodup ∧
+      r.length = min limit (multiSuggestions op itemss).length ∧
+      ((multiSuggestions op itemss).map (·.2)).Nodup ∧
+      ∀ t, t ∈ r → ∃ items, items ∈ itemss ∧ ∃ a, a ∈ items ∧ a.2 = t := by
+  obtain ⟨hnd, hmem⟩ := multiSuggestions_spec op itemss
+  obtain ⟨r, hr, hlen⟩ := suggestItems_length (multiSuggestions op itemss) limit hl
+  refine ⟨r, hr, suggestItems_nodup _ limit r hr hnd, hlen, hnd, ?_⟩
+  intro t ht
+  obtain ⟨a, ha, rfl⟩ := suggestItems_mem _ limit r hr t ht
+  exact (hmem a.2).mp (List.mem_map.mpr ⟨a, ha, rfl⟩)
+
+/-- `b` is proposed by both sub-correctors (scores -2 and -1): it comes back once, with `max` in
+    front of `a`. -/
+example : suggestItems (multiSuggestions max [[(-2, [98])], [(-3/2, [97]), (-1, [98])]]) 5 = .ok [[98], [97]] := by
+  decide +kernel
+
+/-- **`MultiCorrector([reader.corrector(field), ListCorrector(wl)], op)`** on a multi-segment
+    reader, any `op`: succeeds, at most `limit` suggestions, none twice, and every one is a term of
+    the field or a word of the list that shares the prefix and is within the documented distance.
+    `_partial` like the sub-correctors: ranking and self-exclusion are the recorded defects. -/
+theorem multi_corrector_partial (op : Rat → Rat → Rat) (lex wl : List (List Nat)) (freq : List Nat → Nat)
+    (w : List Nat) (limit d p : Nat) (hl : 0 < limit) (hw : Valid w) (hv : ∀ t, t ∈ wl → Valid t)
+    (hs : SortedLex wl) :
+    ∃ r, multiSuggest op [readerItems (termsWithinBase lex w d p) freq d, listItems wl w d p] limit = .ok r ∧
+      r.length ≤ limit ∧ r.Nodup ∧
+      ∀ t, t ∈ r → t ∈ within osa lex w d p ∨ t ∈ within osa wl w d p := by
+  obtain ⟨items, hitems, hok⟩ := listSuggestionsLoop_spec wl w p d hw hv hs
+    ((List.range d).map (· + 1)) [] (by
+      intro m hm
+      simp only [List.mem_map, List.mem_range] at hm
+      obtain ⟨a, ha, rfl⟩ := hm; omega)
+  obtain ⟨r, hr, hnd, hlen, _, hmem⟩ :=
+    multi_corrector op [suggestions (within osa lex w d p) freq d, items] limit hl
+  refine ⟨r, ?_, by rw [hlen]; exact Nat.min_le_left _ _, hnd, ?_⟩
+  · unfold multiSuggest readerItems listItems
+    rw [terms_within_multi, hitems]
+    exact hr
+  · intro t ht
+    obtain ⟨its, hits, a, ha, rfl⟩ := hmem t ht
+    simp only [List.mem_cons, List.not_mem_nil, or_false] at hits
+    rcases hits with rfl | rfl
+    · exact Or.inl (mem_suggestions _ freq d a ha)
+    · right
+      obtain ⟨h1, _, h3, h4⟩ := hok a ha
+      have hlev : a.2 ∈ within lev wl w d p := by
+        unfold within
+        rw [List.mem_filter]
+        refine ⟨h1, ?_⟩
+        simp only [Bool.and_eq_true, decide_eq_true_eq, sharePrefix, List.isPrefixOf_iff_prefix]
+        exact ⟨h3, by rw [(dist_symm a.2 w).1]; exact h4⟩
+      exact single_subset_documented wl w d p a.2 hlev
+
+/-- The hypotheses are satisfiable: the field has `ab` and `b`, the list `ab` and `ac`; the word is
+    `aa`, distance 1, prefix 1 (`ab` is proposed by both sub-correctors). -/
+example : ∃ r, multiSuggest max [readerItems (termsWithinBase [[97, 98], [98]] [97, 97] 1 1) (fun _ => 2) 1,
+    listItems [[97, 98], [97, 99]] [97, 97] 1 1] 5 = .ok r ∧ r.length ≤ 5 ∧ r.Nodup := by
+  obtain ⟨r, h1, h2, h3, _⟩ := multi_corrector_partial max [[97, 98], [98]] [[97, 98], [97, 99]] (fun _ => 2)
+    [97, 97] 5 1 1 (by omega) (by simp [Valid, Scalar, maxCodePoint]) (by simp [Valid, Scalar, maxCodePoint])
+    (by simp [SortedLex]; decide)
+  exact ⟨r, h1, h2, h3⟩
 
 /-- **`Searcher.correct_query` / `SimpleQueryCorrector`** for one query word, multi-segment
     reader: the word is either left alone or replaced by a term of the field that shares the
